@@ -162,6 +162,30 @@ def eventPath : JV → Option (List JV)
   | .arr (.arr p :: _) => some p
   | _ => none
 
+/-! ## hypotheses of the laws -/
+
+/-- key/index path: strings and numbers only (no slice objects, no ill-typed elements) -/
+def KIPath (p : List JV) : Prop := ∀ e ∈ p, (∃ k, e = .str k) ∨ (∃ m, e = .num m)
+
+/-- the Go `int` a number path element denotes (`toInt`: truncating, saturating) -/
+def idxOf (m : Num) : Int := (toInt? (.num m)).getD 0
+
+/-- `q` is a REAL location of `v`, holding `x`: every step finds an existing key of an object, or
+    an existing element of an array — the index may be negative (counted from the end) or
+    fractional (truncated), resolved as `getpath` and `setpath` resolve it (`clampIndex`) -/
+def Loc : List JV → JV → JV → Prop
+  | [], v, x => v = x
+  | e :: q, v, x =>
+    match e, v with
+    | .str k, .obj kvs => ∃ y, kvLookup k kvs = some y ∧ Loc q y x
+    | .num m, .arr xs =>
+      0 ≤ clampIndex (idxOf m) (-1) xs.length ∧ clampIndex (idxOf m) (-1) xs.length < xs.length ∧
+      ∃ y, xs[(clampIndex (idxOf m) (-1) xs.length).toNat]? = some y ∧ Loc q y x
+    | _, _ => False
+
+/-- the (top-level) keys of an association list are pairwise different -/
+def DistinctKeys (kvs : List (Bytes × JV)) : Prop := kvs.Pairwise fun a b => b.1 ≠ a.1
+
 /-! ## size conditions under which Go's `int` indices and `setpath`'s index limit are not met -/
 
 mutual
